@@ -637,6 +637,10 @@ theorem defineAllVals_ok (d : Bool) : ∀ (xs : List String) (rs : List (Nat × 
       subst e2
       exact AllOk_cons (instrOk_mov d _ _ _) (defineAllVals_ok d xs rs _ nm2 (next + 1) n3 c2 h2)
 
+theorem retMovs_ok (d : Bool) : ∀ (rs : List (Nat × Ty)) (next : Nat), AllOk d (retMovs rs next).2.1
+  | [], _ => AllOk_nil d
+  | (_, _) :: rs, next => AllOk_cons (instrOk_mov d _ _ _) (retMovs_ok d rs (next + 1))
+
 theorem stmt_ok_succ (d : Bool) (P : Prog) (f : Nat) (ihE : EOk d P f) (ihC : CallOk d P f) (ihR : RetOk d P f)
     (ihB : BOk d P f) (ihF : FOk d P f) : SOk d P (f + 1) := by
   intro s nm next r h hd
@@ -787,13 +791,29 @@ theorem stmt_ok_succ (d : Bool) (P : Prog) (f : Nat) (ihE : EOk d P f) (ihC : Ca
     exact ihF i lo c hi stp body nm next r h (by simpa [noDivS] using hd)
   | ret es =>
     simp only [lowerS] at h
-    cases hl : lowerRet P f nm es next with
-    | none => simp [hl] at h
-    | some q =>
-      obtain ⟨rs, code, n1⟩ := q
-      simp only [hl, Option.some.injEq] at h
-      subst h
-      exact ihR es nm next rs code n1 hl (by simpa [noDivS] using hd)
+    cases hrc : retCallOf es with
+    | some q0 =>
+      obtain ⟨g, args⟩ := q0
+      simp only [hrc] at h
+      have hes := retCallOf_some hrc
+      subst hes
+      cases hc : lowerCall P f nm g args next with
+      | none => simp [hc] at h
+      | some q =>
+        obtain ⟨rs, cc, n1⟩ := q
+        simp only [hc, Option.some.injEq] at h
+        subst h
+        exact AllOk_append (ihC nm g args next rs cc n1 hc (by simpa [noDivS, noDivEs, noDivE] using hd))
+          (retMovs_ok d rs n1)
+    | none =>
+      simp only [hrc] at h
+      cases hl : lowerRet P f nm es next with
+      | none => simp [hl] at h
+      | some q =>
+        obtain ⟨rs, code, n1⟩ := q
+        simp only [hl, Option.some.injEq] at h
+        subst h
+        exact ihR es nm next rs code n1 hl (by simpa [noDivS] using hd)
 
 theorem block_ok_succ (d : Bool) (P : Prog) (f : Nat) (ihS : SOk d P f) (ihB : BOk d P f) : BOk d P (f + 1) := by
   intro ss nm next r h hd
